@@ -284,7 +284,8 @@ def execute(case: dict[str, Any]) -> dict[str, Any]:
             snap = run.tick()
             snap["runlog"] = run.runlog()
             snap["nodes"] = {n.id: (type(n).__name__, n.started, n.completed, n.cancelled, n.forced,
-                                    getattr(n, "activated", None))
+                                    getattr(n, "activated", None),
+                                    [c.id for c in getattr(n, "children", None) or []])
                              for n in run.engine.interpreter._program.get_all_nodes()}
             out["ticks"].append(snap)
         out["log"] = list(run.log)
@@ -349,3 +350,133 @@ def unfinalized(res: dict[str, Any]) -> list[tuple[int, str]]:
     for ev in res["log"]:
         seen.setdefault(ev[3], ev[2])
     return [(s, n) for s, n in seen.items() if s not in fin]
+
+
+def oracle_c10(case: dict[str, Any], res: dict[str, Any]) -> list[tuple[str, str]]:
+    """What must hold when Stop / Restart completes (the tick in which the on_stop listeners ran)."""
+    out: list[tuple[str, str]] = []
+    log = res["log"]
+    first_seen: dict[int, int] = {}
+    for ev in log:
+        first_seen.setdefault(ev[3], ev[0])
+    executed_ids = {ev[5] for ev in log if ev[1] in ("init", "exec")}
+    for stop in res["stops"]:
+        t = stop["tick"]
+        snap = res["ticks"][t - 1]
+        if snap["instances"]:
+            out.append(("instance-survives-stop", f"tick {t}: uod.command_instances = {snap['instances']}"))
+        if snap["simulated"]:
+            out.append(("simulation-survives-stop", f"tick {t}: {snap['simulated']} still simulated"))
+        if snap["run_id"] is not None:
+            out.append(("run-id-survives-stop", f"tick {t}: Run Id = {snap['run_id']}"))
+        if "error" in stop:
+            out.append(("final-runlog-not-producible", f"tick {t}: {stop['error']}"))
+        else:
+            for ln in stop["lines"]:
+                if ln["id"] in executed_ids and ln["end"] is None:
+                    out.append(("started-command-not-concluded-in-final-runlog",
+                                f"tick {t}: {ln['name']} was executed but the reported run log line has no end"))
+        for ev in log:
+            if ev[0] > t and ev[1] == "exec" and first_seen[ev[3]] <= t:
+                out.append(("command-executes-after-stop", f"tick {ev[0]}: {ev[2]} #{ev[3]} executes after the run "
+                                                           f"ended at tick {t}"))
+                break
+    # Restart: new run id, method from its first line
+    if len(res["starts"]) >= 2 and res["stops"]:
+        if len(set(res["starts"])) != len(res["starts"]):
+            out.append(("run-id-reused", f"run ids {res['starts']}"))
+        t_stop = res["stops"][0]["tick"]
+        after = [ev[2] for ev in log if ev[1] == "init" and ev[0] > t_stop]
+        ref = case.get("_reference")
+        late_inject = any(op[0] == "inject" and int(k) >= t_stop - 2
+                          for k, ops in case.get("sched", {}).items() for op in ops)
+        if ref is not None and not late_inject and len(after) >= 2 and len(ref) >= 2 and after[:2] != ref[:2]:
+            out.append(("restart-does-not-rerun-from-first-line",
+                        f"commands after restart {after[:4]} vs fresh run {ref[:4]}"))
+    return out
+
+
+def reference_inits(case: dict[str, Any]) -> list[str]:
+    """Command instances a fresh run of the method creates, in order (for the Restart clause)."""
+    res = execute({"pcode": case["pcode"], "ticks": min(case["ticks"], 30), "sched": {}, "failing": case.get("failing", True)})
+    return [ev[2] for ev in res["log"] if ev[1] == "init"]
+
+
+def oracle_c12(case: dict[str, Any], res: dict[str, Any]) -> list[tuple[str, str]]:
+    out: list[tuple[str, str]] = []
+    log = res["log"]
+    n_ticks = len(res["ticks"])
+
+    def node_at(t: int, node_id):
+        if node_id is None or t >= n_ticks:
+            return None
+        return res["ticks"][t]["nodes"].get(node_id)
+    for r in res["requests"]:
+        op = r["op"][0]
+        if op not in ("cancel", "force") or r.get("skipped"):
+            continue
+        t = r["tick"]                      # the request arrives before tick index t (0-based)
+        item = r.get("item")
+        same = r["before"] == r["after"]
+        if item is None:                   # an id nobody knows
+            if not same:
+                out.append((f"{op}-of-unknown-id-changed-state", f"before tick {t + 1}"))
+            if op == "cancel" and r["result"] == "ok":
+                out.append(("cancel-of-unknown-id-accepted", f"before tick {t + 1}"))
+            continue
+        cls = r.get("node_cls") or "?"
+        site = ("uod-command" if cls == "UodCommandNode" else "engine-command") if r.get("has_cmd") else \
+            ("uod-command" if cls == "UodCommandNode" else "node")
+        offered = item[3] if op == "cancel" else item[4]
+        what = f"{op} of {item[1]!r} ({cls}, state {item[2]}, cancellable={item[3]}, forcible={item[4]}) before tick {t + 1}"
+        if not offered:
+            if r["result"] == "ok":
+                out.append((f"unoffered-{op}-accepted:{site}", what + " was accepted"))
+            elif not same:
+                out.append((f"rejected-{op}-changed-state:{site}", what))
+            continue
+        if r["result"] != "ok":
+            continue                       # offered but refused: the property does not speak about it
+        if op == "cancel":
+            if cls == "UodCommandNode":
+                ser = r.get("cmd_serial")
+                if r.get("has_cmd") and ser is not None:
+                    later = [ev for ev in log if ev[3] == ser and ev[0] > t]
+                    if any(ev[1] == "exec" for ev in later):
+                        out.append(("cancelled-uod-command-executes", what + f": #{ser} executed afterwards"))
+                    fin = [ev for ev in log if ev[3] == ser and ev[1] == "final"]
+                    if not fin or fin[0][0] > t + 1:
+                        out.append(("cancelled-uod-command-not-finalized", what + f": #{ser} not finalized by tick {t + 1}"))
+                else:
+                    if any(ev[5] == item[0] and ev[0] > t for ev in log):
+                        out.append(("cancelled-unstarted-uod-command-executes", what + ": the command ran afterwards"))
+            elif cls == "WatchNode":
+                nid = r.get("node_id")
+                for k in range(t, n_ticks):
+                    nd = node_at(k, nid)
+                    if nd is None:
+                        break
+                    kids = [node_at(k, c) for c in nd[6]]
+                    if nd[5] or any(c is not None and c[1] for c in kids):
+                        out.append(("cancelled-watch-body-ran", what + f": active at tick {k + 1}"))
+                        break
+            elif cls == "EngineCommandNode" and item[1].split(":")[0] in ("Pause", "Hold"):
+                paused, holding = r["paused_after"]
+                if (item[1].startswith("Pause") and paused) or (item[1].startswith("Hold") and holding):
+                    out.append(("cancelled-timed-pause-does-not-end", what))
+        else:
+            nid = r.get("node_id")
+            if cls == "InterpreterCommandNode" and item[1].startswith("Wait"):
+                # this invocation of the Wait (instance id) is shown as completed within three ticks
+                states = []
+                for k in range(t, min(t + 3, n_ticks)):
+                    rl = res["ticks"][k]["runlog"]
+                    if isinstance(rl, list):
+                        states += [x[2] for x in rl if x[0] == item[0]]
+                if states and "completed" not in states:
+                    out.append(("forced-wait-still-waiting", what + f": states {states} in the next three ticks"))
+            elif cls == "WatchNode":
+                nd = node_at(min(t + 2, n_ticks - 1), nid)
+                if nd is not None and not nd[5] and not nd[2]:
+                    out.append(("forced-watch-not-activated", what + f": not activated at tick {t + 3}"))
+    return out
